@@ -35,6 +35,30 @@ def act_layer(rng, allow_poly):
     return l
 
 
+def onehot_matrix(seq, A):
+    return [[[1, 1] if seq[p] == c else [0, 1] for p in range(len(seq))] for c in range(A)]
+
+
+def ref_matrix(rng, A, L):
+    r = rng.random()
+    if r < 0.55:
+        return onehot_matrix([rng.randrange(A) for _ in range(L)], A)
+    if r < 0.7:
+        s = [rng.randrange(A) for _ in range(L)]; s[rng.randrange(L)] = -1
+        return onehot_matrix(s, A)
+    if r < 0.8:
+        return [[[0, 1]] * L for _ in range(A)]
+    if r < 0.9 and A in (2, 4):
+        return [[[1, A]] * L for _ in range(A)]
+    cols = []
+    for _ in range(L):
+        cuts = sorted(rng.randint(0, 8) for _ in range(A - 1))
+        v = [b - a for a, b in zip([0] + cuts, cuts + [8])]
+        cols.append(v)
+    import math
+    return [[[cols[p][c] // math.gcd(cols[p][c], 8) if cols[p][c] else 0, 8 // math.gcd(cols[p][c], 8) if cols[p][c] else 1] for p in range(L)] for c in range(A)]
+
+
 def gen_coincide(rng, cid):
     """Family in which pre-activations of example and reference coincide EXACTLY (in rationals) without being bit-identical in
     floating point: non-dyadic first-layer weights (k/10, k/3), a 1x1 convolution averaged over the whole length, and references
@@ -63,7 +87,7 @@ def gen_coincide(rng, cid):
         r = list(x); rng.shuffle(r)
         if rng.random() < 0.3:
             r[rng.randrange(L)] = rng.randrange(A)
-        refs.append(r)
+        refs.append(onehot_matrix(r, A))
     return dict(id=cid, A=A, x=x, refs=refs, refmode="tensor", nref=len(refs), target=rng.randrange(units), layers=layers,
                 hyp=rng.random() < 0.5, bs=rng.randint(1, len(refs) + 1), seed=rng.randrange(1000), nout=units, affine=False, coincide=True)
 
@@ -99,7 +123,8 @@ def gen_case(rng, cid, allow_maxpool=True):
         if Lc >= 2 and r < 0.25:
             layers.append(dict(k="avgpool", size=2)); Lc //= 2
         elif Lc >= 2 and r < 0.45 and allow_maxpool:
-            layers.append(dict(k="maxpool", size=2)); Lc //= 2
+            mp = rng.choice([0, 0, 1])
+            layers.append(dict(k="maxpool", size=2, pad=mp)); Lc = (Lc + 2 * mp - 2) // 2 + 1
     layers.append(dict(k="flatten"))
     n_in = C * Lc
     for j in range(rng.randint(1, 2)):
@@ -123,7 +148,8 @@ def gen_case(rng, cid, allow_maxpool=True):
     x = [rng.randrange(A) for _ in range(L)]
     refmode = rng.choice(["tensor", "tensor", "dinuc"])
     nref = rng.randint(1, 3)
-    refs = [[rng.randrange(A) for _ in range(L)] for _ in range(nref)] if refmode == "tensor" else []
+    # explicit references as A x L matrices of rationals: one-hot, one-hot with an all-zero (N) column, all-zero, uniform, k/8 frequencies
+    refs = [ref_matrix(rng, A, L) for _ in range(nref)] if refmode == "tensor" else []
     return dict(id=cid, A=A, x=x, refs=refs, refmode=refmode, nref=nref, target=rng.randrange(n_in), layers=layers,
-                hyp=rng.random() < 0.5, bs=rng.randint(1, nref + 1), seed=rng.randrange(1000), nout=n_in,
+                hyp=rng.random() < 0.5, bs=rng.randint(1, nref + 1), seed=rng.randrange(1000), nout=n_in, nest=rng.randrange(4),
                 affine=not any(l["k"] in ("act", "maxpool") for l in layers))
